@@ -70,11 +70,14 @@ void group_checks(const std::string & tn)
     h.setIdentity();
     c.judge("setIdentity", ref::relerr1(R::template matrix<L>(coeffsL(h).data()), I), 0.0);
   });
-  // ---- pairs
-  const uint64_t n = E.size();
+  // ---- pairs (quick: three rotation-axis classes instead of five; thorough: all 14)
+  AlphaOpts fp = full;
+  if (!mc::thorough() && fp.dirs.size() > 3) fp.dirs = {fp.dirs[1], fp.dirs[2], fp.dirs[3]};
+  const auto Ep    = elements<R, S>(fp);
+  const uint64_t n = Ep.size();
   std::vector<Mat<L, Dim>> Ms, As;
   std::vector<G> Gs;
-  for (auto & e : E) {
+  for (auto & e : Ep) {
     Gs.push_back(make<G>(e));
     Ms.push_back(R::template matrix<L>(coeffsL(Gs.back()).data()));
     As.push_back(ref::cabs(Ms.back()));
@@ -82,8 +85,8 @@ void group_checks(const std::string & tn)
   mc::explore("C01/compose/" + tn, n * n, [&](mc::Case & c) {
     const uint64_t i = c.idx / n, j = c.idx % n;
     c.desc = [&, i, j] { return edesc("g1", Gs[i]) + " " + edesc("g2", Gs[j]); };
-    c.param("rot", std::max(E[i].rot, E[j].rot));
-    c.param("tm", std::max(E[i].tm, E[j].tm));
+    c.param("rot", std::max(Ep[i].rot, Ep[j].rot));
+    c.param("tm", std::max(Ep[i].tm, Ep[j].tm));
     const auto Mr = ref::mul(Ms[i], Ms[j]);
     const L sc    = ref::mul(As[i], As[j]).maxabs();  // the product may cancel: forward-error scale |M1||M2|
     const G p     = Gs[i] * Gs[j];
